@@ -26,6 +26,22 @@ def target_lock(name):
             os.close(fd)
 
 
+def touch_tree(root):
+    """cargo decides freshness by comparing source mtimes (paths relative to the package root) with the previous build in the shared target
+    directory; a scratch copy prepared while another check was still building would look older than that build and cargo would run
+    the other check's binary.  Called under the target lock, right before cargo."""
+    now = time.time()
+    for dp, dn, fn in os.walk(root):
+        if 'target' in dn:
+            dn.remove('target')
+        for f in fn:
+            if f.endswith('.rs') or f == 'Cargo.toml':
+                try:
+                    os.utime(os.path.join(dp, f), (now, now))
+                except OSError:
+                    pass
+
+
 def run_tests(rust_src, append_to='src/protocols/tcp/tcb.rs', crate='elvis-core', test_filter='mirx_replay', release=False, timeout=900,
               modname='mirx_replay_mod', extra_appends=None):
     """returns (stdout, returncode).  rust_src becomes a child module of the file `append_to` in a scratch copy."""
@@ -58,6 +74,7 @@ def run_tests(rust_src, append_to='src/protocols/tcp/tcb.rs', crate='elvis-core'
             cmd.append('--release')
         cmd += [test_filter, '--', '--nocapture', '--test-threads', '1']
         with target_lock('native-target'):
+            touch_tree(dst)
             p = subprocess.run(['timeout', '-k', '10', str(timeout)] + cmd, cwd=dst, env=env, capture_output=True, text=True)
         return p.stdout + '\n' + p.stderr, p.returncode
     finally:
@@ -124,6 +141,7 @@ def run_shim_tests(rust_src, module='ip_generator.rs', test_filter='mirx_replay'
         env['RUSTFLAGS'] = env.get('RUSTFLAGS', '') + ' -Awarnings'
         cmd = ['cargo', 'test', '--offline', '--lib', test_filter, '--', '--nocapture', '--test-threads', '1']
         with target_lock('native-target'):
+            touch_tree(scratch)
             p = subprocess.run(['timeout', '-k', '10', str(timeout)] + cmd, cwd=d, env=env, capture_output=True, text=True)
         return p.stdout + '\n' + p.stderr, p.returncode
     finally:
